@@ -275,6 +275,14 @@ def targets(tier='quick'):
     for kind in ('float', 'interval'):
         T.append(Target('shift/parse-times[%s]' % kind, 'system_dynamics._parse_times', scen_parse(kind), post_parse, R, PROP, invoke=invoke_parse, replay=mk_replay('parse')))
     T.append(lemma_field_sequence())
+    # multi-time correlations: the dynamics inside are computed with the caller's start time (and dt): contract of C07, kept
+    # here as far as it is about the time origin
+    from . import c07
+    for dg in (False, True):
+        t = Target('shift/correlations[dt_given=%s]' % dg, 'system_dynamics.compute_correlations_nt', c07.scen_nt(dg), c07.post_nt, c07.nt_registry(), PROP,
+                   replay=mk_replay('correlations'), max_paths=2000)
+        t.keep = lambda name: name.startswith(('nt/start-time-governs-dynamics', 'nt/dt-governs-dynamics', 'nt/axes', 'unexpected-exception'))
+        T.append(t)
     return T
 
 
